@@ -467,7 +467,9 @@ impl<'a> G<'a> {
         }
         let (k, c, cv) = self.r.pick(&cand).clone();
         let name = format!("{k}{c}");
-        if !m.contains_key(&name) && !k.is_empty() && !c.is_empty() {
+        // "_sd_" + "alg", "_s" + "d", "c" + "nf" ...: a concatenation may spell a reserved / registered name
+        let excluded = ["_sd", "...", "_sd_alg", "cnf", "aud", "sub", "nbf", "iss", "exp", "iat"].contains(&name.as_str());
+        if !excluded && !m.contains_key(&name) && !k.is_empty() && !c.is_empty() {
             let v = if self.r.chance(50) { cv } else { self.leaf() };
             m.insert(name, v);
         }
